@@ -386,7 +386,18 @@ fn chk(out: &mut Shards, id: usize, t: &mut Td, rng: &mut Rng) -> bool {
         let q6: Vec<i64> = qgrid.iter().map(|&q| (q * 1e6).round() as i64).collect();
         let res6 = ((maxatom as f64 / tw as f64) * 1e6).ceil() as i64 + 2;
         let _ = rng;
-        json!({"op":"DChk","id":id,"k":k,"tw":tw,"ws":cs.iter().map(|c| c.1).collect::<Vec<_>>(),
+        // heavy centroids (at least 2% of the total weight): weight and the quantiles of both edges, in
+        // thousandths, rounded down (C15: the scale function limits what a centroid may hold where it sits)
+        let mut wq: Vec<Value> = vec![];
+        let mut left = 0u64;
+        for (i, c) in cs.iter().enumerate() {
+            let w3 = (1000u128 * c.1 as u128 / tw as u128) as u64;
+            if w3 >= 20 && i != 0 && i + 1 != cs.len() {
+                wq.push(json!([w3, (1000u128 * left as u128 / tw as u128) as u64, (1000u128 * (left + c.1) as u128 / tw as u128) as u64, c.1.min(1 << 30)]));
+            }
+            left += c.1;
+        }
+        json!({"op":"DChk","id":id,"k":k,"tw":tw,"wq":wq,"ws":cs.iter().map(|c| c.1).collect::<Vec<_>>(),
             "means":means_r,"len":bytes.len(),
             "min":rk_vals[0],"max":rk_vals[1],"smin":rk_vals[2],"smax":rk_vals[3],
             "rs":&rr_r[4..],"r0":rr_r[0],"r1":rr_r[1],"rbelow":rr_r[2],"rabove":rr_r[3],
